@@ -3,7 +3,7 @@ C11 on the byte-level index reader model of C15 (`Hts.Model.IndexIO`, tied to th
 correspondence check): `csi.ReadFrom` never ends in `Fault.panic`, for arbitrary bytes.  Core Lean only.
 
 In that model every `make([]T, n)` of the CSI reader is `counted n …` (a negative `n` is the error the
-code returns since fixes/C11-13) or follows the `uint32(nBins) > binLimit` / `n < 0` tests of `readBins`;
+code returns since fixes/C11-13) or follows the `nBins < 0` / `uint32(nBins) > binLimit+1` tests of `readBins` (`rCBins`: `n < 0`, `n.toNat > binLimit + 1`);
 the `bins = bins[:len(bins)-1]; i--` step of the statistics pseudo-bin is the loop counter `k` of
 `rCBinLoop` going down without a bin being appended.
 -/
